@@ -349,3 +349,83 @@ pub fn abi_incompatible<S: Src>(s: &mut S) {
     };
     assert!(!ok, "C10: incompatible signature changes are rejected when the connection is created (and the identical signature is accepted)");
 }
+
+// ---- C15: the compatibility ledger on a real directory ----------------------------------------------------------
+// Editions of ONE interface (same trait name => same ledger file names), each in its own module.
+macro_rules! ledger_edition {
+    ($m:ident, $ver:literal, { $($payload:tt)* }, { $($methods:tt)* }) => {
+        pub mod $m {
+            use savefile_derive::{savefile_abi_exportable, Savefile};
+            #[derive(Savefile)]
+            pub struct Payload { $($payload)* }
+            #[savefile_abi_exportable(version = $ver)]
+            pub trait VerifLedger { $($methods)* }
+        }
+    };
+}
+ledger_edition!(led0, 0, { pub a: u32, }, { fn put(&self, p: Payload) -> u32; });
+ledger_edition!(led1, 1, { pub a: u32, #[savefile_versions = "1.."] pub b: u32, }, { fn put(&self, p: Payload) -> u32; });
+ledger_edition!(led1_newmethod, 1, { pub a: u32, #[savefile_versions = "1.."] pub b: u32, }, { fn put(&self, p: Payload) -> u32; fn extra(&self, x: u8) -> u8; });
+ledger_edition!(led1_break_v1, 1, { pub a: u32, #[savefile_versions = "1.."] pub b: u64, }, { fn put(&self, p: Payload) -> u32; });
+ledger_edition!(led1_argcount, 1, { pub a: u32, #[savefile_versions = "1.."] pub b: u32, }, { fn put(&self, p: Payload, q: u32) -> u32; });
+ledger_edition!(led1_removed, 1, { pub a: u32, #[savefile_versions = "1.."] pub b: u32, }, { fn other(&self, x: u8) -> u8; });
+ledger_edition!(led1_rettype, 1, { pub a: u32, #[savefile_versions = "1.."] pub b: u32, }, { fn put(&self, p: Payload) -> u64; });
+ledger_edition!(led1_argtype, 1, { pub a: u64, #[savefile_versions = "1.."] pub b: u32, }, { fn put(&self, p: Payload) -> u32; });
+pub mod led_future {
+    use savefile_derive::savefile_abi_exportable;
+    #[savefile_abi_exportable(version = 0)]
+    pub trait VerifLedger {
+        fn put(&self, x: u32) -> std::pin::Pin<Box<dyn std::future::Future<Output = u32>>>;
+        fn cb(&self, f: &dyn Fn(u32) -> u32) -> u32;
+    }
+}
+
+fn ledger_run<T: AbiExportable + ?Sized>(dir: &str) -> bool {
+    match catch_unwind(AssertUnwindSafe(|| savefile_abi::verify_compatiblity::<T>(dir))) {
+        Ok(r) => r.is_ok(),
+        Err(_) => panic!("C15: the compatibility check panicked"),
+    }
+}
+
+/// C15: sequences of runs of verify_compatiblity against one schema directory.
+pub fn ledger_files<S: Src>(s: &mut S) {
+    type Run = fn(&str) -> bool;
+    let e0: Run = ledger_run::<dyn led0::VerifLedger>;
+    let e1: Run = ledger_run::<dyn led1::VerifLedger>;
+    let newm: Run = ledger_run::<dyn led1_newmethod::VerifLedger>;
+    let brk1: Run = ledger_run::<dyn led1_break_v1::VerifLedger>;
+    let argc: Run = ledger_run::<dyn led1_argcount::VerifLedger>;
+    let remv: Run = ledger_run::<dyn led1_removed::VerifLedger>;
+    let rett: Run = ledger_run::<dyn led1_rettype::VerifLedger>;
+    let argt: Run = ledger_run::<dyn led1_argtype::VerifLedger>;
+    let fut: Run = ledger_run::<dyn led_future::VerifLedger>;
+    // (sequence of runs, expected outcome of each run)
+    let scenarios: Vec<(&str, Vec<(Run, bool)>)> = vec![
+        ("unchanged v0 interface, three runs", vec![(e0, true), (e0, true), (e0, true)]),
+        ("unchanged v1 interface, three runs", vec![(e1, true), (e1, true), (e1, true)]),
+        ("unchanged interface with a boxed-future return and a closure argument", vec![(fut, true), (fut, true), (fut, true)]),
+        ("compatible evolution v0 -> v1 (new versioned field), then unchanged", vec![(e0, true), (e1, true), (e1, true)]),
+        ("compatible evolution, then a change that breaks the recorded version 1", vec![(e0, true), (e1, true), (brk1, false)]),
+        ("a change that breaks only the newest recorded version", vec![(e1, true), (brk1, false)]),
+        ("new method added", vec![(e1, true), (newm, true), (newm, true)]),
+        ("argument count changed", vec![(e1, true), (argc, false)]),
+        ("method removed", vec![(e1, true), (remv, false)]),
+        ("return type changed", vec![(e1, true), (rett, false)]),
+        ("argument type changed (breaks version 0 and 1)", vec![(e1, true), (argt, false)]),
+        ("broken edition is still rejected on a later run (nothing was overwritten)", vec![(e1, true), (brk1, false), (brk1, false), (e1, true)]),
+    ];
+    let k = s.below(scenarios.len());
+    let (what, runs) = &scenarios[k];
+    let mut dir = std::env::temp_dir();
+    dir.push(format!("verif_ledger_{}_{}", std::process::id(), k));
+    let _ = std::fs::remove_dir_all(&dir);
+    let d = dir.to_str().unwrap().to_string();
+    for (i, (run, expect)) in runs.iter().enumerate() {
+        let got = run(&d);
+        if got != *expect {
+            let _ = std::fs::remove_dir_all(&dir);
+            panic!("C15: scenario '{}', run #{}: the compatibility check returned {} where {} is required", what, i + 1, if got { "Ok" } else { "Err" }, if *expect { "Ok" } else { "Err" });
+        }
+    }
+    let _ = std::fs::remove_dir_all(&dir);
+}
